@@ -8,6 +8,7 @@ from hypothesis import strategies as st
 
 from core.outcome import Outcome, discard, observe
 from gen.selector_frames import build_frame, feature_names, selector_case
+from oracles.selector import abs_corr, cramer_tschuprow
 from props.c14_selectors import make_selector, reference_measures
 
 PID = "C15"
@@ -70,6 +71,31 @@ def tie_explains(base, other, measure):
         return all(f in measure and not math.isnan(measure[f]) and tied(f) for f in differing)
     moved = [f for i, f in enumerate(base) if other[i] != f]
     return all(tied(f) for f in moved)
+
+
+def threshold_explains(base, other, X, quant, qual, cfg):
+    """True when every feature present in only one of the two selections has an association with another
+    feature of its type that equals thresh_corr within 1e-9."""
+    differing = set(base) ^ set(other)
+    if not differing:
+        return False
+    for f in differing:
+        same = quant if f in quant else qual
+        hit = False
+        for g in same:
+            if g == f:
+                continue
+            if f in quant:
+                c = abs_corr(X[f], X[g], cfg["quant_filter"])
+            else:
+                v, t = cramer_tschuprow(X[f], X[g])
+                c = v if cfg["qual_filter"] == "cramerv" else t
+            if not math.isnan(c) and abs(c - cfg["thresh_corr"]) <= 1e-9:
+                hit = True
+                break
+        if not hit:
+            return False
+    return True
 
 
 def check_case(case) -> Outcome:
@@ -152,6 +178,11 @@ def check_case(case) -> Outcome:
             continue
         if tie_explains(base_list, other, measure):
             out.label("tie_ambiguous")
+            continue
+        if threshold_explains(base_list, other, X, quant, qual, cfg):
+            # an inter-feature association sits on thresh_corr up to rounding (e.g. |rho| of two monotone
+            # copies computed as 1.0000000000000002 in one row order and 1.0 in the other)
+            out.label("threshold_ambiguous")
             continue
         if enc[0] == "negate" and default_distance and touched in quant:
             sig = "RegressionSelector/float/distance_measure/negation"
